@@ -179,6 +179,13 @@ def run_continued(arg):
         prev = b
     if betas[-1] != 1.0:
         r.violation("C06/continued/final-beta-not-1", {"record": betas}, case)
+    if second.get("min_step"):
+        # the floor given to the continuing call is honoured by every step it takes (the last one may be cut at 1)
+        rest = [b1[-1]] + betas[len(b1):]
+        for t in range(1, len(rest)):
+            if rest[t] < 1.0 and (rest[t] - rest[t - 1]) < second["min_step"] * (1 - 1e-12):
+                r.violation("C06/continued/min_step-not-honoured", {"step": rest[t] - rest[t - 1], "min_step": second["min_step"], "record": betas}, case)
+                break
     if not second.get("adaptive", True):
         # a fixed continuation advances by 1/n_steps from where the first leg stopped (the last step may be shorter)
         step = 1.0 / second["n_steps"]
@@ -202,7 +209,8 @@ def run(tier, seed, workers):
     cont = []
     for first in ({"adaptive": True, "target_efficiency": 0.9, "min_step": 0.05, "max_n_steps": 2}, {"adaptive": False, "n_steps": 7, "max_n_steps": 2},
                   {"adaptive": False, "n_steps": 3, "max_n_steps": 2}):
-        for second in ({"adaptive": False, "n_steps": 5}, {"adaptive": False, "n_steps": 7}, {"adaptive": True, "target_efficiency": 0.8}):
+        for second in ({"adaptive": False, "n_steps": 5}, {"adaptive": False, "n_steps": 7}, {"adaptive": True, "target_efficiency": 0.8},
+                       {"adaptive": True, "target_efficiency": 0.95, "min_step": 0.2}):
             cont.append((first, second, "smc"))
     for d in pmap("checks.c06", "run_continued", cont, workers):
         rep.merge(d)
